@@ -336,7 +336,9 @@ class FreeEnergy(InterpolatableFunction):
             "rtol": rTol,
             "atol": tolAbsolute,
             "max_step": dT,
-            "first_step": phaseTracerFirstStep,
+            "first_step": (
+                None if phaseTracerFirstStep is None else phaseTracerFirstStep * dT
+            ),
         }
 
         # iterating over up and down integration directions
